@@ -8,6 +8,7 @@ import (
 	"encoding/hex"
 	"fmt"
 	"math/big"
+	"os"
 
 	"github.com/google/go-tdx-guest/testing/testdata"
 	"verifharness/ref"
@@ -79,4 +80,12 @@ func pubX(c *x509.Certificate) *big.Int {
 		return pk.X
 	}
 	return new(big.Int)
+}
+
+// repoRoot is the library checkout the checks run against (/repo unless VERIF_REPO says otherwise).
+func repoRoot() string {
+	if r := os.Getenv("VERIF_REPO"); r != "" {
+		return r
+	}
+	return "/repo"
 }
